@@ -20,6 +20,7 @@ var hostileSeeds = []string{
 	"a/b/c@v1", "a/b/c@1.0.0@2.0.0", "xn--/a/b/c", "\u30c6\u30e9.example.com/a/b/c", "exa mple.com/a/b/c", "a/b/c d", "-/-/-", "_/_/_", "A/B/C", "a.b/c/d/e", "127.0.0.1/a/b/c", "localhost/a/b/c", "example.com:443/a/b/c",
 	"https://example.com/x.tgz?checksum=md5:00", "https://example.com/x.tgz#frag", "git::ssh://git@example.com/x.git", "git::ssh://example.com/x.git", "git::https://example.com/%2e%2e/x.git",
 	"a/b/c@18446744073709551616.0.0", "a/b/c@1.99999999999999999999.0", "example.com/a/b/c@0.0.340282366920938463463374607431768211456", "a/b/c@1.0.0-99999999999999999999",
+	"\u2135a.com/ns/name/aws", "a\u2136.example.com/a/b/c@1.0.0", strings.Repeat("a", 1025) + "\u00e9.com/ns/name/aws", "xn--a-zhc.com/a/b/c",
 	"c:\\windows", ".\\a", "./a:b", "./a\\b", " ./a", "./a ", "\t", "\x00", "./\x00", "a/b/c\x00",
 }
 
@@ -33,7 +34,7 @@ func mutateString(r *simkit.RNG, s string) string {
 		}
 	case 1:
 		i := r.Intn(len(rs) + 1)
-		ins := []rune(simkit.Pick(r, []string{"/", "//", "..", ".", "?", "&", "=", "@", ":", "::", "%", "%2f", "%00", "#", " ", "\\", "\u00e9", "\U0001F600", "[", "]", "*", "+"}))
+		ins := []rune(simkit.Pick(r, []string{"/", "//", "..", ".", "?", "&", "=", "@", ":", "::", "%", "%2f", "%00", "#", " ", "\\", "\u00e9", "\U0001F600", "[", "]", "*", "+", "\u2135", "\u2138"}))
 		rs = append(rs[:i], append(ins, rs[i:]...)...)
 	case 2:
 		return s + s
@@ -75,6 +76,10 @@ func GenHostile(seed uint64) *Scenario {
 		sc.Strings = strs
 	case 1:
 		m := hostileManifest(r, strs)
+		if kr := simkit.NewRNG(seed, "bw/manifest-kind"); kr.Chance(1, 25) {
+			// not a regular file at all
+			m = simkit.Pick(kr, []string{"@FIFO@", "@LINK-FIFO@", "@DIR@"})
+		}
 		sc.Manifest = &m
 	default:
 		// through a peer: one package, one analysis, hostile strings in its declarations
@@ -102,7 +107,7 @@ func hostileManifest(r *simkit.RNG, strs []string) string {
 	locals := []string{"pkgdir", "pkgdir", "pkgdir0", "pkg", "pkgdir-old", "PKGDIR", "Pkg", "..cache", "...", "..", ".", "a/b", "a\\b", "", "/abs", "terraform-sources.json", "../x", "x/..", "pkgdir/", "/", "..\\..", "pkgdir\x00", "ü", " ..", "..\n", " .", " ", "\t..", ".. ", " pkgdir"}
 	sources := []string{"git::https://example.com/x.git", "https://example.com/x.tgz", "git::https://example.com/x.git//sub", "garbage", "", "./local", "https://user:pw@example.com/x.tgz", "git::https://example.com/x.git?ref=a"}
 	regs := []string{"example.com/a/b/c", "a/b/c", "example.com/a/b/c//sub", "garbage", "", "a/b"}
-	vers := []string{"1.0.0", "1.0.0-beta", "not-a-version", "", "1", "v1.0.0", "1.0.0+b", "0.0.0", "18446744073709551616.0.0", "1.99999999999999999999.0"}
+	vers := []string{"1.0.0", "1.0.0", "1.0", "01.0.0", "1.0.0-beta", "not-a-version", "", "1", "v1.0.0", "1.0.0+b", "0.0.0", "18446744073709551616.0.0", "1.99999999999999999999.0"}
 	doc := map[string]interface{}{"terraform_source_bundle": simkit.Pick(r, []interface{}{1, 1, 1, 1, 1, 1, 0, 2, "1", -1, 1.5, nil})}
 	var pkgs []interface{}
 	for i := r.Range(0, 3); i > 0; i-- {
@@ -154,6 +159,13 @@ func hostileManifest(r *simkit.RNG, strs []string) string {
 	}
 	if regl != nil {
 		doc["registry"] = regl
+	}
+	if simkit.NewRNG(uint64(len(strs))*7919+uint64(len(regl)), "bw/manifest-version-keys").Chance(1, 6) {
+		// an otherwise well-formed manifest in which two version keys of one registry package are
+		// spellings of the same version
+		k2 := simkit.Pick(r, []string{"1.0", "01.0.0", "1", "1.0.0"})
+		return `{"terraform_source_bundle":1,"packages":[{"source":"https://example.com/x.tgz","local":"pkgdir"},{"source":"git::https://example.com/x.git","local":"pkgdir0"}],` +
+			`"registry":[{"source":"example.com/a/b/c","versions":{"1.0.0":{"source":"https://example.com/x.tgz"},"` + k2 + `":{"source":"git::https://example.com/x.git","deprecation":{"Version":"1.0.0","Reason":"r","Link":"l"}}}}]}`
 	}
 	b, _ := json.Marshal(doc)
 	s := string(b)
